@@ -39,3 +39,121 @@ pub fn forget<T>(x: T) {
 pub fn same_bits(a: f64, b: f64) -> bool {
     a.to_bits() == b.to_bits() || (a.is_nan() && b.is_nan())
 }
+
+// ---- T5 dependency substitution: std::collections::HashMap<String, Value> -> association list ---------------
+// hashbrown's SIMD group probing and SipHash make every HashMap operation cost CBMC minutes (measured: three
+// insertions did not finish in 30 min). Under cfg(kani) the `use std::collections::HashMap` lines of environment.rs,
+// functions.rs, values.rs and expressions.rs are redirected to this type, which implements the same finite-map
+// interface. ASSUMPTION: std's HashMap satisfies the finite-map contract that VecMap implements directly
+// (insert replaces or adds, get returns the last inserted value for an equal key, iteration visits each entry once).
+pub struct VecMap<K, V> {
+    items: Vec<(K, V)>,
+}
+
+impl<K: Eq, V> VecMap<K, V> {
+    pub fn new() -> Self {
+        VecMap { items: Vec::new() }
+    }
+
+    pub fn insert(&mut self, k: K, v: V) -> Option<V> {
+        let mut i = 0;
+        while i < self.items.len() {
+            if self.items[i].0 == k {
+                return Some(std::mem::replace(&mut self.items[i].1, v));
+            }
+            i += 1;
+        }
+        self.items.push((k, v));
+        None
+    }
+
+    pub fn get<Q: ?Sized + Eq>(&self, q: &Q) -> Option<&V>
+    where
+        K: std::borrow::Borrow<Q>,
+    {
+        let mut i = 0;
+        while i < self.items.len() {
+            if self.items[i].0.borrow() == q {
+                return Some(&self.items[i].1);
+            }
+            i += 1;
+        }
+        None
+    }
+
+    pub fn contains_key<Q: ?Sized + Eq>(&self, q: &Q) -> bool
+    where
+        K: std::borrow::Borrow<Q>,
+    {
+        self.get(q).is_some()
+    }
+
+    pub fn len(&self) -> usize {
+        self.items.len()
+    }
+
+    pub fn is_empty(&self) -> bool {
+        self.items.is_empty()
+    }
+
+    pub fn iter(&self) -> impl Iterator<Item = (&K, &V)> {
+        self.items.iter().map(|(k, v)| (k, v))
+    }
+
+    pub fn into_keys(self) -> impl Iterator<Item = K> {
+        self.items.into_iter().map(|(k, _)| k)
+    }
+}
+
+impl<K: Eq, V> Default for VecMap<K, V> {
+    fn default() -> Self {
+        Self::new()
+    }
+}
+
+impl<K: Clone, V: Clone> Clone for VecMap<K, V> {
+    fn clone(&self) -> Self {
+        VecMap { items: self.items.clone() }
+    }
+}
+
+impl<K: std::fmt::Debug, V: std::fmt::Debug> std::fmt::Debug for VecMap<K, V> {
+    fn fmt(&self, f: &mut std::fmt::Formatter<'_>) -> std::fmt::Result {
+        f.write_str("VecMap")
+    }
+}
+
+impl<K: Eq, V: PartialEq> PartialEq for VecMap<K, V> {
+    fn eq(&self, other: &Self) -> bool {
+        if self.len() != other.len() {
+            return false;
+        }
+        let mut i = 0;
+        while i < self.items.len() {
+            match other.get(&self.items[i].0) {
+                Some(v) if *v == self.items[i].1 => {}
+                _ => return false,
+            }
+            i += 1;
+        }
+        true
+    }
+}
+
+impl<K, V> IntoIterator for VecMap<K, V> {
+    type Item = (K, V);
+    type IntoIter = std::vec::IntoIter<(K, V)>;
+    fn into_iter(self) -> Self::IntoIter {
+        self.items.into_iter()
+    }
+}
+
+impl<K: Eq, V> FromIterator<(K, V)> for VecMap<K, V> {
+    fn from_iter<I: IntoIterator<Item = (K, V)>>(iter: I) -> Self {
+        let mut m = VecMap::new();
+        for (k, v) in iter {
+            m.insert(k, v);
+        }
+        m
+    }
+}
